@@ -11,8 +11,14 @@ import (
 	"bufio"
 	"encoding/json"
 	"os"
+	"regexp"
 	"strconv"
 	"strings"
+
+	apb "github.com/google/fhir/go/proto/google/fhir/proto/annotations_go_proto"
+	"google.golang.org/protobuf/proto"
+	"google.golang.org/protobuf/reflect/protoreflect"
+	"google.golang.org/protobuf/reflect/protoregistry"
 
 	"github.com/shopspring/decimal"
 	"github.com/verily-src/fhirpath-go/fhirpath/zzverif/lib"
@@ -78,6 +84,30 @@ func item(s string) lib.Item {
 	return none
 }
 
+var typeSpec = regexp.MustCompile(`^\{namespace:(\w+) typeName:([\w.]+)\}$`)
+
+// fhirType is the FHIR type name and kind of a proto message type; ty = "" when the item is no message, "?" when it is a wrapper
+// (ContainedResource, a choice type) or a type the registry does not know.
+func fhirType(full string) map[string]string {
+	if full == "" {
+		return map[string]string{"ty": "", "kind": ""}
+	}
+	none := map[string]string{"ty": "?", "kind": ""}
+	if strings.HasSuffix(full, ".ContainedResource") {
+		return none
+	}
+	mt, err := protoregistry.GlobalTypes.FindMessageByName(protoreflect.FullName(full))
+	if err != nil {
+		return none
+	}
+	d := mt.Descriptor()
+	if proto.HasExtension(d.Options(), apb.E_IsChoiceType) && proto.GetExtension(d.Options(), apb.E_IsChoiceType).(bool) {
+		return none
+	}
+	ty, kind := lib.FHIRTypeOf(d)
+	return map[string]string{"ty": ty, "kind": kind}
+}
+
 func isWord(s string) bool {
 	if s == "" || len(s) > 16 {
 		return false
@@ -137,6 +167,29 @@ func main() {
 				items[i] = item(s)
 			}
 			rec[key] = items
+		}
+		// type tests (law typeop, C12): the proto message type of every outcome item becomes its FHIR type name and kind, read
+		// from the google/fhir descriptor annotations (lib.FHIRTypeOf - not from the package under test); the type specifier
+		// of an is/as node ("{namespace:FHIR typeName:Patient}") becomes tns / tname
+		if rec["e"] == "E" {
+			otk := []map[string]string{}
+			if raw, ok := rec["oty"].([]any); ok {
+				for _, x := range raw {
+					name, _ := x.(string)
+					otk = append(otk, fhirType(name))
+				}
+			}
+			rec["otk"] = otk
+			delete(rec, "oty")
+		} else {
+			rec["tns"], rec["tname"] = "", ""
+			if k, _ := rec["k"].(string); k == "Is" || k == "As" {
+				ps, _ := rec["p"].(string)
+				if m := typeSpec.FindStringSubmatch(ps); m != nil {
+					rec["tns"], rec["tname"] = m[1], m[2]
+				}
+				rec["p"] = ""
+			}
 		}
 		b, _ := json.Marshal(rec)
 		w.Write(b)
